@@ -94,6 +94,33 @@ def run(prop, tier, seed, only=None):
     return c.finish()
 
 
+def continuations(prop, conf, name, all_scripts, drifts, c, ncontin, log):
+    """at most 6 distinct kinds of drift per configuration: (action, differing parts), earliest occurrence"""
+    import contin
+    tags = [t for t in TAGS if t.startswith(prop + ":")]
+    known = [f["signature"] for f in findings_for(prop)]
+    groups = {}
+    for d in sorted(drifts, key=lambda d: d["line"]):
+        groups.setdefault((d["action"], tuple(d["parts"])), d)
+    out = []
+    for k, d in list(groups.items())[:6]:
+        if ncontin[0] >= 18:
+            break
+        ncontin[0] += 1
+        script = all_scripts[d["id"]]
+        trace = pipe.trace_of(os.path.join(c.work, "replay-" + name), d["id"])
+        try:
+            found, info = contin.search(conf, script, trace, d["line"], tags, known, os.path.join(c.work, "contin"),
+                                        "%s_%d" % (name.replace("-", "_").replace("+", "p"), ncontin[0]))
+        except Exception as e:      # a continuation that cannot be computed decides nothing
+            common.log("%s %s: continuation from %s step %d failed: %s" % (prop, name, d["id"], d["line"], str(e)[:300]))
+            continue
+        log.append({"config": name, "script": d["id"], "step": d["line"], "action": d["action"], "parts": d["parts"],
+                    "states": info.get("states"), "model_counterexample": bool(found), "model_violation": info.get("model_violation")})
+        out += found
+    return out
+
+
 def collect(prop, tier, seed, c, only=None):
     """runs the pipeline for `prop`, registers violations / known findings on the Check `c`, returns the coverage dict"""
     confs = [x for x in configs_for(prop) if only is None or x["name"] in only]
@@ -109,6 +136,8 @@ def collect(prop, tier, seed, c, only=None):
     # thorough bounds, looking for a real violation the quick bounds are too small to reach
     queue = [(conf, tier) for conf in confs]
     escalated = []
+    ncontin = [0]
+    contin_log = []
     while queue:
         conf, ctier = queue.pop(0)
         if ctier != tier and viols:
@@ -133,6 +162,23 @@ def collect(prop, tier, seed, c, only=None):
         for d in st["drift"]:
             d["config"] = name
         drifts += st["drift"]
+        # DRIFT policy, step 1 (DESIGN.md 2.1): drift-directed continuation - TLC explores the model from the state the
+        # real code is in after a drifting step; its counterexamples are replayed on the real code and judged there
+        if st["drift"] and not mine and not viols and ncontin[0] < 18:
+            found = continuations(prop, conf, name, all_scripts, st["drift"], c, ncontin, contin_log)
+            if found:
+                v2, st2 = pipe.run_scripts(found, os.path.join(c.work, "replay-" + name + "~contin"), shards=2)
+                nscripts += len(found)
+                nevents += st2["events"]
+                for s2 in found:
+                    all_scripts[s2["id"]] = s2
+                mine = [x for x in v2 if x["tag"].startswith(prop + ":")]
+                for x in mine:
+                    x["config"] = name + "~contin"
+                viols += mine
+                common.log("%s %s: %d continuation(s) of drifting executions replayed on the real code, %d violation(s) of this property" % (
+                    prop, name, len(found), len(mine)))
+        # step 2: a configuration in which the code left the model is explored again with the thorough bounds
         if st["drift"] and not mine and ctier == "quick" and conf["faults"][1] > conf["faults"][0] and len(escalated) < 4:
             escalated.append(conf["name"])
             queue.append((conf, "thorough"))
@@ -204,6 +250,7 @@ def collect(prop, tier, seed, c, only=None):
         "drift_steps": len(drifts),
         "drift": drifts[:20],
         "escalated_configs": escalated,
+        "drift_continuations": contin_log,
         "property_tags": sorted(t for t in TAGS if t.startswith(prop + ":")),
         "level_d": None if not dres else {"fault_plans_from_tlc": rp.distinct, "daemon_scenarios": dres["scenarios"], "transactions_validated": dres["runs"],
                                           "events_validated": dres["events"], "daemon_events": dres["devents"], "drift_steps": len(dres["drift"]),
@@ -297,12 +344,12 @@ TAGS = [
     "C04:FileChanged", "C04:RequestsRedone", "C04:IntegrityFaultAfterDelivery", "C04:SenderSuccessWithoutDelivery",
     "C07:Header", "C07:DataContent", "C07:UnsolicitedData", "C07:MetadataWrong", "C07:EofWrong", "C07:EofBeforeData", "C07:NakNotAnswered",
     "C08:NakWellFormed", "C08:DeferredQuiet", "C08:NakCoversMissing", "C08:NakAsksForHeld",
-    "C10:NoPartialFile", "C10:CancelEnds", "C10:CancelReported",
+    "C10:NoPartialFile", "C10:DeliveredAfterCancel", "C10:CancelEnds", "C10:CancelReported",
     "C13:RequestsOutsideDelivery", "C13:ResponsesDiffer",
     "C17:FaultExact", "C17:HandlerAsConfigured",
     "C18:OneWay", "C18:EndsOnEof", "C18:ClosureFinished", "C18:ClosureTruthful", "C18:ClosureSenderWaits",
     "C18:ClosureReported", "C18:IncompleteNotComplete",
-    "C19:QuietWhileSuspended", "C19:NoFaultWhileSuspended",
+    "C19:QuietWhileSuspended", "C19:NoFaultWhileSuspended", "C19:TimersFrozen",
     "C20:ReceiverProgress", "C20:SenderProgress",
 ]
 
